@@ -83,8 +83,35 @@ class Facts(dict):
         return frozenset(self.alts.items())
 
 
+def subject(k):
+    """The value a guard fact is about: the tested term itself, the left operand of a comparison, the first argument of
+    a predicate call - with method calls and slices peeled off."""
+    t = k
+    if t[0] == "cmp":
+        t = t[3] if (t[2][0] == "const" and t[3][0] != "const") else t[2]
+    for _ in range(6):
+        if t[0] == "call":
+            f = t[1]
+            if f[0] == "attr" and f[1][0] not in ("global", "ext", "builtin", "const"):
+                t = f[1]
+                continue
+            if t[2] and f[0] in ("builtin", "global", "ext", "attr"):
+                if f == ("builtin", "len") or f == ("builtin", "isinstance") or f == ("builtin", "type") or f[0] == "attr":
+                    t = t[2][0]
+                    continue
+            break
+        if t[0] == "sub" and t[2][0] == "slice":
+            t = t[1]
+            continue
+        if t[0] == "unop":
+            t = t[2]
+            continue
+        break
+    return t
+
+
 def _group_of(k):
-    return frozenset(leaves(k))
+    return subject(k)
 
 
 class State:
@@ -264,10 +291,8 @@ def alternatives(facts, about=None):
     if not alts:
         return [facts]
     if about is not None:
-        lv = set()
-        for t in (about if isinstance(about, (list, set)) else [about]):
-            leaves(t, lv)
-        groups = [g for g in alts if g & lv]
+        abouts = about if isinstance(about, (list, set)) else [about]
+        groups = [g for g in alts if any(_related(g, a) for a in abouts)]
     else:
         groups = list(alts)
     if not groups:
@@ -284,6 +309,20 @@ def alternatives(facts, about=None):
         if len(combos) > MAX_COMBOS:
             return [facts]
     return combos
+
+
+def _related(g, a):
+    """Is the fact group about value g relevant for deciding something about term a?"""
+    from .terms import walk
+    if g == a:
+        return True
+    for x in walk(a):
+        if x == g:
+            return True
+    for x in walk(g):
+        if x == a:
+            return True
+    return False
 
 
 def _truth_alts(k, facts):
@@ -390,8 +429,7 @@ def assume(state: State, t, val: bool):
         return state if cur == v else None
     s = state.copy()
     if s.facts.alts:
-        lv = leaves(k)
-        for g in [g for g in s.facts.alts if g & lv]:
+        for g in [g for g in s.facts.alts if _related(g, k)]:
             keep = []
             for alt in s.facts.alts[g]:
                 d = dict(s.facts)
@@ -580,8 +618,6 @@ class Analyzer:
                             extra.setdefault(_group_of(fk), set()).add((fk, fv))
                     per_state.append(extra)
                 for grp in set(per_state[0]) | set(per_state[1]) | set(g.facts.alts) | set(s.facts.alts):
-                    if not grp:
-                        continue
                     alts = set()
                     for st, extra in zip((g, s), per_state):
                         own = frozenset(extra.get(grp, ()))
